@@ -925,7 +925,15 @@ func (w *World) Serve(task, idx int, rq *Req) *ReqRec {
 		h1, s1 := taskCacheGet()
 		rec.Hits, rec.Stores = h1-hits0, s1-stores0
 		if cr := w.R.VerifCache(); cr != nil {
+			if w.sc.Pre && shCur() >= 0 {
+				// another task may be parked inside the cache's critical section: wait for it like a caller of Lock would
+				for !cr.VerifLockFree() {
+					taskYieldForced(siteLockWait)
+				}
+			}
+			shQuiet(1) // the walk itself may run through (instrumented) rux code: no preemption inside it
 			ks, _ := cr.VerifKeys()
+			shQuiet(-1)
 			rec.CacheKeys = strings.Join(ks, "\x00")
 		}
 	}()
